@@ -11,6 +11,7 @@ A device lives in virtual time (`vlib.sched.Scheduler`): blocking reads are sche
     script = {
       'eol': '\n',                       # appended by the device to every reply ('' for byte devices)
       'cmds': {'A': {'reply': 'a1', 'delay': 0.2, 'chunks': [1, 2], 'gap': 0.05}, 'S': {'reply': None}},
+                                         # 'reply' may be a list: the k-th answer to that command (last element repeated)
       'default': {'reply': '{cmd}!', 'delay': 0.0},            # for commands not listed (None: silence)
       'unsolicited': [[1.5, 'junk\n'], ...],   # bytes the device emits by itself, seconds after the connect
       'close': {'send': 3, 'phase': 'before' | 'after_cmd' | 'mid_reply' | 'after_reply'} | {'at': 2.5} | None,
@@ -114,6 +115,8 @@ class Device:
         self.nconnect = 0
         self.nsend = 0
         self.chans = []
+        self.uses = {}          # command -> number of times it was answered (for 'reply' given as a list)
+        self.send_kind = lambda: 'send'     # the harness may classify sends (e.g. 'isend': made by checkHWIdent)
         DEVICES[self.uri] = self
 
     def unregister(self):
@@ -163,7 +166,7 @@ class Device:
         self.nsend += 1
         now = self.sched.now
         text = data.decode('latin-1')
-        self.log.add('send', conn=ch.cid, data=text, n=n)
+        self.log.add(self.send_kind(), conn=ch.cid, data=text, n=n)
         if ch.eof_at is not None and ch.eof_at <= now:
             return              # the device is gone already: the bytes vanish (as a first write to a closed peer)
         cl = self.script.get('close') or {}
@@ -180,7 +183,16 @@ class Device:
             if phase is not None:
                 self._eof(ch, now)
             return
-        reply = spec['reply'].replace('{cmd}', key).replace('{n}', str(n)).encode('latin-1') + self.eol
+        rtext = spec['reply']
+        if isinstance(rtext, list):       # the k-th time the command is answered: element k (the last one from then on)
+            k = self.uses.get(key, 0)
+            self.uses[key] = k + 1
+            rtext = rtext[min(k, len(rtext) - 1)]
+            if rtext is None:
+                if phase is not None:
+                    self._eof(ch, now)
+                return
+        reply = rtext.replace('{cmd}', key).replace('{n}', str(n)).encode('latin-1') + self.eol
         chunks = []
         pos = 0
         for s in spec.get('chunks') or ():
